@@ -148,9 +148,28 @@ def deliveryFindings (claimPrefix : String) (d : Desc) (n : Net) : List Finding 
       | .dropped at_ why => some (fnd (claimPrefix ++ "-dropped") fl.site s!"at {at_}: {why}")
       | .outOfFuel => some (fnd (claimPrefix ++ "-loop") fl.site "does not arrive")
 
+/-- the type of the destination field of the flit header (second argument of the header type macro) -/
+def hdrDst (n : Net) : Option String :=
+  n.pkg.items.findSome? fun
+    | .macro nm args =>
+      if nm == "`FLOO_TYPEDEF_HDR_T" || nm == "`FLOO_TYPEDEF_VC_HDR_T" then (args[1]?).map (String.intercalate " ")
+      else none
+    | _ => none
+
+/-- the routers read the destination field of the header as a route word under source routing and as an
+    identifier otherwise: the field has to be declared with that type -/
+def hdrFindings (claimPrefix : String) (d : Desc) (n : Net) : List Finding :=
+  let want := if d.algo == .SRC then "route_t" else "id_t"
+  match hdrDst n with
+  | some t =>
+    if t == want then []
+    else [fnd (claimPrefix ++ "-header-field") "hdr_t"
+            s!"the destination field of the flit header is declared as {t}, the routers read it as {want}"]
+  | none => [fnd (claimPrefix ++ "-header-field") "hdr_t" "no header type declared"]
+
 namespace C02
 def check (d : Desc) (n : Net) : List Finding :=
-  if d.algo == .ID then deliveryFindings "id" d n else []
+  if d.algo == .ID then deliveryFindings "id" d n ++ hdrFindings "id" d n else []
 end C02
 
 namespace C03
@@ -167,7 +186,7 @@ def litFindings (n : Net) : List Finding :=
   | none, _ => [fnd "src-no-table" "RoutingTables" "no RoutingTables emitted"]
 
 def check (d : Desc) (n : Net) : List Finding :=
-  if d.algo == .SRC then deliveryFindings "src" d n ++ litFindings n else []
+  if d.algo == .SRC then deliveryFindings "src" d n ++ litFindings n ++ hdrFindings "src" d n else []
 end C03
 
 /-! ## C05 -/
